@@ -24,6 +24,7 @@ type shimCall struct {
 	Done    bool
 	Started bool
 	Msgs    []wsMsg
+	Idx     int
 }
 
 // worldC12: concurrent and out-of-order shim calls with valid, unknown,
@@ -52,7 +53,7 @@ func worldC12(w *World) {
 	nCalls := t.Range(2, 10, "calls")
 	var calls []*shimCall
 	for i := 0; i < nCalls; i++ {
-		c := &shimCall{}
+		c := &shimCall{Idx: i}
 		c.Kind = []string{"data", "close", "poll", "data", "close"}[t.Choice(5, "kind")]
 		c.Sess = t.Choice(nSess, "sess")
 		c.Arg = []string{"valid", "valid", "valid", "unknown", "malformed", "empty", "oddmsg"}[t.Choice(7, "arg")]
@@ -130,7 +131,8 @@ func worldC12(w *World) {
 						// well-formed JSON for a live session whose message is not a string
 						// or a one-element array of a string
 						odd := []string{`[123]`, `[null]`, `[{"a":1}]`, `[["x"]]`, `17`, `null`, `{"k":"v"}`, `["a","b"]`, `[]`, `true`, `[1.5e300]`}
-						body = []byte(`[{"id":"` + id + `","msg":` + odd[(int(c.At/time.Millisecond)+c.Sess+len(id))%len(odd)] + `},{"id":"` + id + `","msg":` + odd[(int(c.At/time.Millisecond)+3*c.Sess+7)%len(odd)] + `}]`)
+						// a rejected message ends its post, so one odd message per post
+						body = []byte(`[{"id":"` + id + `","msg":` + odd[(int(c.At/time.Millisecond)+c.Sess+len(id)+c.Idx)%len(odd)] + `}]`)
 					}
 				default:
 					body, _ = json.Marshal(map[string]string{"id": id})
